@@ -292,6 +292,39 @@ def run(ctx):
             # also see it on its own inputs; here the replay is the tree itself
             ctx.violation("an unbracketed operator chain is not grouped by precedence and left associativity", {"expression": text},
                           expected=a, observed=got)
+    # ---- the same with prefix operators in front of the first operand (a symbol, so that the sign is not part of a
+    # number): Model.ShuntP (prefix_binds_tightest)
+    def py_tree_p(node):
+        name = type(node).__name__
+        if hasattr(node, "lhs") and hasattr(node, "rhs"):
+            return "(%s %s %s)" % (py_tree_p(node.lhs), name, py_tree_p(node.rhs))
+        if hasattr(node, "operand"):
+            return "(%s %s)" % (name, py_tree_p(node.operand))
+        if hasattr(node, "value"):
+            return str(node.value)
+        return str(getattr(node, "name", node))[1:]
+    preqs, pjobs = [], []
+    for _ in range(1200 if ctx.thorough else 300):
+        k = rng.randint(0, 6)
+        npre = rng.randint(1, 4)
+        pres = [rng.choice(["+", "-", "~", "^c", "^C"]) for _ in range(npre)]
+        atoms = [rng.randrange(1, 200) for _ in range(k + 1)]
+        ops = [rng.choice(chain_ops) for _ in range(k)]
+        sep = lambda: rng.choice(["", " ", "\t"])
+        text = "".join(p + sep() for p in pres) + "s%d" % atoms[0] + "".join(" %s %d." % (o, a) for o, a in zip(ops, atoms[1:]))
+        r = impl.assemble([("/t/chain.mac", "res = " + text + "\n")], parse_only=True)
+        ctx.case("pchain:" + text)
+        ctx.count("operator chains with leading prefix operators")
+        if r.outcome != "ok":
+            ctx.disagree("operator chain with prefix operators does not parse", text, "a tree", r.summary())
+            continue
+        got = py_tree_p(r.compiler[0].body.insns[0].value)
+        preqs.append("shuntp %s | %d %s" % (" ".join(p.lower() for p in pres), atoms[0], " ".join("%s %d" % (o, a) for o, a in zip(ops, atoms[1:]))))
+        pjobs.append((text, got))
+    for (text, got), a in zip(pjobs, ctx.driver.ask(preqs)):
+        if a != got:
+            ctx.disagree("ShuntP.shuntP (tree of the precedence loop with prefix operators)", text, a, got)
+            ctx.violation("prefix operators do not bind tighter than the infix operators that follow", {"expression": text}, expected=a, observed=got)
     # ---- literals: every radix spelling, the 8/9 rule
     lit_cases = []
     for v in [0, 1, 7, 8, 9, 10, 63, 64, 255, 0o777, 0o1000, 65535, 65536, 123456789]:
